@@ -225,8 +225,8 @@ def write_obligations(tabs, info, kinds=('c01', 'c03', 'c05', 'c07', 'c08')):
     return names, missing, mods
 
 
-NEEDS_ENGINE = {'c01', 'c03', 'c05', 'c06', 'c04'}
-INST_IMPORTS = {'c06': ('c06', 'c01', 'c03', 'c07', 'c08'), 'c04': ('c01',), 'c07h': ('c07', 'c08')}
+NEEDS_ENGINE = {'c01', 'c03', 'c05', 'c06', 'c04', 'c04b'}
+INST_IMPORTS = {'c06': ('c06', 'c01', 'c03', 'c07', 'c08'), 'c04': ('c01',), 'c04b': ('c01',), 'c07h': ('c07', 'c08')}
 
 
 def write_instances(tabs, info, kinds):
@@ -259,12 +259,17 @@ def write_instances(tabs, info, kinds):
                 if kind == 'c04':
                     if n not in clsA or n not in tolA:
                         continue
+                elif kind == 'c04b':
+                    if n not in clsB or n not in set(frag.get('tolB', [])):
+                        continue
                 elif n not in clsA and n not in clsB and n not in clsC and n not in clsCp:
                     continue
                 for tol in ((20,) if kind == 'c03' else (5, 10, 20)):
                     eng = ('(.A wf_%s_%d)' if n in clsA else '(.B wfB_%s_%d)' if n in clsB else '(.C wfC_%s_%d)' if n in clsC else '(.Cp wfCp_%s_%d)') % (i, tol)
                     if kind == 'c03':
                         lines.append('theorem %s_%s : C03Holds IRGen.P_%s IRGen.W_%s := C03_holds _ _ ⟨%d, 1⟩ ⟨by decide, by decide⟩ %s c03w_%s' % (kind.upper(), i, i, i, tol, eng, i))
+                    elif kind == 'c04b':
+                        lines.append('theorem C04B_%s_%d : C04BHolds IRGen.P_%s IRGen.W_%s ⟨%d, 1⟩ := C04B_holds _ _ _ ⟨by decide, by decide⟩ wfB_%s_%d wftol_%s_%d c01w_%s' % (i, tol, i, i, tol, i, tol, i, tol, i))
                     elif kind == 'c04':
                         lines.append('theorem C04_%s_%d : C04Holds IRGen.P_%s IRGen.W_%s ⟨%d, 1⟩ := C04_holds _ _ _ ⟨by decide, by decide⟩ wf_%s_%d wftol_%s_%d c01w_%s' % (i, tol, i, i, tol, i, tol, i, tol, i))
                     elif kind == 'c06':
